@@ -25,7 +25,7 @@ CLAIMS = {
         "buffer write on a path to Err; every Ok/None path stores the argument and grows size; Ok/None only under "
         "size<N, Err/Some only under size>=N or N==0; none of the four can reach an explicit panic site — in the thorough "
         "tier also no debug assertion of the -Cdebug-assertions=on build — under the guard facts of its call paths (TOTAL1). "
-        "Not decided: which end / length delta (values).",
+        "Not decided: which end / length delta (values). INV1 restricted to the insertion functions: what they write to the header has the reviewed shapes (size + 1; start moved by one position through dec_start/inc_start only).",
         note="Assumes INV (size <= N at entry; its preservation is checked by INV1 under C04). Trusted: rustc's MIR "
         "construction and drop elaboration, the mirdump driver's serialisation. Value-level clause 6 not decided.",
         ref="DESIGN.md §5 C02",
@@ -69,7 +69,7 @@ CLAIMS = {
         "classified progress argument (TERM1): exit by a std iterator's None; `while size < B` whose body increases size by "
         "one on every path under the loop's facts (callee paths projected); a counter moved towards its bound by an entailed "
         "step >= 1 — the back-fill step of Drain::drop is value-level and listed as undecided; an exit test over operands "
-        "the body never changes is reported. Not decided: single-element bounds checks (counted; infeasible under INV). In the debug build (thorough tier) the three stated beliefs of Drain::read and the saved-size assertions of the drain views are now *proved* from their callers (std Range::next / next_back modelled as axioms: next hands out the old start and advances it, next_back retreats the end and hands out the new end, both only while start < end; a panic block shared by several failing tests is judged edge by edge), so a change of one of them is reported (DBGASSERT1).",
+        "the body never changes is reported. Not decided: single-element bounds checks (counted; infeasible under INV). In the debug build (thorough tier) the three stated beliefs of Drain::read and the saved-size assertions of the drain views are now *proved* from their callers (std Range::next / next_back modelled as axioms: next hands out the old start and advances it, next_back retreats the end and hands out the new end, both only while start < end; a panic block shared by several failing tests is judged edge by edge), so a change of one of them is reported (DBGASSERT1). An assertion whose condition is stated over something the guard reasoning cannot read (a promoted constant range such as `(0..N).contains(..)`) is listed as undecided, never reported; Range::contains / RangeInclusive::contains over resolvable operands, and min as a lower bound, are modelled.",
         note="Assumes INV (checked by INV1 under C04) and core's RangeBounds impls; single-element bounds checks are "
         "not judged; SUB1/RIDX1 report only obligations over transparent operands.",
         ref="DESIGN.md §5 C11",
@@ -86,7 +86,7 @@ CLAIMS = {
         "of comparison/hash/fmt impls (RO1), the closed table of forget/ManuallyDrop sites (LEAK1), and that elements taken "
         "out of the buffer's custody by a shrinking store are handed to drop_range or a Drain before any user code runs "
         "(SHRINK1). Independent of "
-        "N, layout, argument length and of which invocation panics.",
+        "N, layout, argument length and of which invocation panics. GUARD1 also requires Guard::drop to reach its drop_in_place on every path (no early return keyed on the element type).",
         note="Unwind edges whose only source is an implicit bounds / zero-divisor check are treated as infeasible "
         "(INV + MOD1); external callees are classified by resolved where-clauses and a reviewed structural-impl table; "
         "the Drain impl is governed by DRN1 (C09/C10), From<[T;M]> by FROMARR1+PS2 (C12/C05).",
@@ -238,7 +238,7 @@ CLAIMS = {
         "nothing establishes start == 0 (WHOLE1). "
         "Because every rule of this machinery is decided for a symbolic capacity and element type, the sequence-semantics rules "
         "whose verdict is thereby valid at N = usize::MAX and for zero-sized T are evaluated under this property too: RIDX1, "
-        "PAN1-3 (the feasible explicit panic sites of every public entry are the documented ones: boundary arguments answer None / Err, they do not reach a bounds assertion), DRNVIEW1/DRAINIT1 (destructor runs of a drain), ORD1/HASH1/DBG1/BASE2/BASE3 (comparison results), TWIN of the range views.",
+        "PAN1-3 (the feasible explicit panic sites of every public entry are the documented ones: boundary arguments answer None / Err, they do not reach a bounds assertion), DRNVIEW1/DRAINIT1 (destructor runs of a drain), ORD1/HASH1/DBG1/BASE2/BASE3 (comparison results), TWIN of the range views. ITERAGG1 (what Debug of iter_mut()/drain() shows for zero-sized elements is only a count: the temporary Iter must be built from both halves of one source).",
         note="Value-level arithmetic correctness of add_mod itself is not decided by this family.",
         ref="DESIGN.md §5 C19",
     ),
@@ -271,7 +271,7 @@ CLAIMS = {
         "slices_uninit_mut, drop_range) are decided one by one by evaluating their slicing expressions to physical intervals of the "
         "backing array (VIEW2): the contiguous form is ([lo,hi), empty), the wrapped form ([lo,N), [0,hi)) of the same lo and hi, the "
         "interval is the occupied region [start, add_mod(start,size,N)) (the free region for slices_uninit_mut, the requested sub-range "
-        "for drop_range), and the pieces are returned first-then-second. Also: every view builds its single contiguous piece items[lower..upper] only where the guard facts entail lower < upper strictly and splits/rotates the array only where they entail upper <= lower, whatever the spelling of the test (VIEWCMP1); front/back-like accessors that forward to get(_mut) do so only under size > 0 with the index size-1 resp. 0 (NONE1, forwarder form), index-kind inference (KIND1), Iter/IterMut override no provided iterator method (ITERSET1). Not decided: make_contiguous's result, the selection arithmetic of range()/range_mut().",
+        "for drop_range), and the pieces are returned first-then-second. Also: every view builds its single contiguous piece items[lower..upper] only where the guard facts entail lower < upper strictly and splits/rotates the array only where they entail upper <= lower, whatever the spelling of the test (VIEWCMP1); front/back-like accessors that forward to get(_mut) do so only under size > 0 with the index size-1 resp. 0 (NONE1, forwarder form), index-kind inference (KIND1), Iter/IterMut override no provided iterator method (ITERSET1). Not decided: make_contiguous's result, the selection arithmetic of range()/range_mut(). ITERAGG1: every Iter/IterMut built anywhere takes (first, second) of one two-slice view or (right, left) of one iterator, in that order. Thorough tier: DELEG1 of C18 for the nightly arms of the slice_take helpers.",
         note="[twin]/shape rules: a behaviour-preserving rewrite of a forwarder or of one twin would also be reported. "
         "Distinctness of mutable references: borrow checker outside unsafe + closed table of unsafe producers (C03).",
         ref="DESIGN.md §5 C07",
@@ -289,7 +289,7 @@ CLAIMS = {
         "and that the Iter/IterMut forms of new/empty/over_range/advance_front_by/advance_back_by (and the slice_take helper "
         "pairs) are the same algorithm modulo mutability. "
         "No iterator type overrides a provided Iterator method (ITERSET1). "
-        "Not decided: the selection arithmetic of advance_front_by/advance_back_by and element order (values).",
+        "Not decided: the selection arithmetic of advance_front_by/advance_back_by and element order (values). ITERAGG1 (every Iter/IterMut is assembled from the two halves of one source, in order — also the temporary ones Debug impls format through).",
         note="[twin] rules for the 8 pairs: a bug present identically in both twins is not visible; a one-sided "
         "behaviour-preserving re-spelling of a twinned function is reported for review (DESIGN.md §10.9).",
         ref="DESIGN.md §5 C08, §10.9",
@@ -303,7 +303,7 @@ CLAIMS = {
         "(type system gives independence of source and result); that they obtain elements only via iter().cloned() resp. "
         "feed every item to push_back, and clone_from clears first; that From<[T;M]> copies out, destroys the rest and "
         "disarms the source on every path with header start=0, size in {M,N} each <= N, and never targets an armed local. "
-        "What the conversions are built from is decided under this property too, for symbolic N (so capacity 1 as any other): push_back stores every item it is given and returns Some only when full (C02's OWN1/STORE1/FULL1 on push_back), and pop_front/pop_back — the owning iterator — answer None only over edges establishing N == 0 or size == 0 (NONE1). FROMARR2: the block From<[T;M]> keeps is [M - size, M) (the last elements), copied to slot 0, the destroyed block is [0, M - size) and the header counts exactly the copied elements — equalities of linear forms read from the copy's operands, the range given to drop_in_place and the returned aggregate. Not decided: element order produced by the push_back loop (C01).",
+        "What the conversions are built from is decided under this property too, for symbolic N (so capacity 1 as any other): push_back stores every item it is given and returns Some only when full (C02's OWN1/STORE1/FULL1 on push_back), and pop_front/pop_back — the owning iterator — answer None only over edges establishing N == 0 or size == 0 (NONE1). FROMARR2: the block From<[T;M]> keeps is [M - size, M) (the last elements), copied to slot 0, the destroyed block is [0, M - size) and the header counts exactly the copied elements — equalities of linear forms read from the copy's operands, the range given to drop_in_place and the returned aggregate. Not decided: element order produced by the push_back loop (C01). Thorough tier: DELEG1 of C18 for the nightly arms the conversions iterate through.",
         note="Shape rules on small forwarding functions; a behaviour-preserving rewrite would be reported.",
         ref="DESIGN.md §5 C12",
     ),
@@ -337,7 +337,7 @@ CLAIMS = {
         "both and returns that sum with no other mutation, fill_buf returns front iff it is non-empty else back, consume "
         "drains ..min(amt,len) and Drain::drop, which completes it, runs droppers -> back-fill -> restore of size on every path "
         "(DRN1), and no zero-capacity modulus/index is reachable from the five entries. Not decided: which "
-        "bytes extend_from_slice keeps (C01), non-underflow of len-count, non-emptiness of fill_buf for a non-empty buffer. IO4 is decided on facts: consume mutates only by one drain(..E) and E is min(amt, len), spelled with min or chosen by a branch whose edges order amt and len accordingly.",
+        "bytes extend_from_slice keeps (C01), non-underflow of len-count, non-emptiness of fill_buf for a non-empty buffer. IO4 is decided on facts: consume mutates only by one drain(..E) and E is min(amt, len), spelled with min or chosen by a branch whose edges order amt and len accordingly. Thorough tier: DELEG1 of C18 for the nightly arm of extend_from_slice that Write::write rests on.",
         note="Shape rules on small methods; trusted: std's <&[u8] as Read>::read.",
         ref="DESIGN.md §5 C14",
     ),
